@@ -220,9 +220,63 @@ fn wrapper_inputs(c: &TextCase) -> Result<(), String> {
     Ok(())
 }
 
+/// a caller-defined DiffableStr (ASCII-case-insensitive text): the text diff must still be the
+/// sequence diff of its tokens on both sides of the size switch.  The new text is re-spelled in the
+/// other case, so equal tokens differ bytewise.
+fn caller_defined_type(c: &TextCase) -> Result<(), String> {
+    use crate::oracle::cistr::CiStr;
+    let (o, n) = match (c.old.as_str(), c.new.as_str()) {
+        (Some(o), Some(n)) => (o, n),
+        _ => return Ok(()),
+    };
+    let n_up = n.to_ascii_uppercase();
+    let (co, cn) = (CiStr::new(o), CiStr::new(&n_up));
+    let cfg = config(c.alg);
+    let tok = c.tok % 5;
+    let (to, tn) = match tok {
+        0 => (co.tokenize_lines(), cn.tokenize_lines()),
+        1 => (co.tokenize_words(), cn.tokenize_words()),
+        2 => (co.tokenize_chars(), cn.tokenize_chars()),
+        3 => (co.tokenize_unicode_words(), cn.tokenize_unicode_words()),
+        _ => (co.tokenize_graphemes(), cn.tokenize_graphemes()),
+    };
+    let d = match tok {
+        0 => cfg.diff_lines(co, cn),
+        1 => cfg.diff_words(co, cn),
+        2 => cfg.diff_chars(co, cn),
+        3 => cfg.diff_unicode_words(co, cn),
+        _ => cfg.diff_graphemes(co, cn),
+    };
+    let want = capture_diff_slices(alg_of(c.alg), &to, &tn);
+    if d.ops() != &want[..] {
+        return Err(format!("case-insensitive caller-defined text type, {} vs {} tokens: TextDiff::ops {:?} != capture_diff_slices over its tokens {:?}", to.len(), tn.len(), d.ops(), want));
+    }
+    // and the same equality pattern spelled identically on both sides gives the same ops
+    let n_lo = n.to_ascii_lowercase();
+    let o_lo = o.to_ascii_lowercase();
+    let d2 = match tok {
+        0 => cfg.diff_lines(CiStr::new(&o_lo), CiStr::new(&n_lo)).ops().to_vec(),
+        1 => cfg.diff_words(CiStr::new(&o_lo), CiStr::new(&n_lo)).ops().to_vec(),
+        2 => cfg.diff_chars(CiStr::new(&o_lo), CiStr::new(&n_lo)).ops().to_vec(),
+        3 => cfg.diff_unicode_words(CiStr::new(&o_lo), CiStr::new(&n_lo)).ops().to_vec(),
+        _ => cfg.diff_graphemes(CiStr::new(&o_lo), CiStr::new(&n_lo)).ops().to_vec(),
+    };
+    if d2 != want {
+        return Err(format!("case-insensitive caller-defined text type: re-spelling the tokens within their equality class changes the ops: {:?} vs {:?}", d2, want));
+    }
+    Ok(())
+}
+
 fn check(case: &Case, obs: &mut Obs) -> Verdict {
     match case {
         Case::Text { case: c, nt } => {
+            if c.old.0.len() + c.new.0.len() <= 3000 && c.old.0.is_ascii() && c.new.0.is_ascii() {
+                match guard(|| caller_defined_type(c)) {
+                    Ok(Ok(())) => {}
+                    Ok(Err(m)) => return Verdict::Fail(format!("{} {}: {}", alg_name(c.alg), TOKENIZERS[(c.tok % 5) as usize], m)),
+                    Err(p) => return Verdict::Fail(format!("text diff over a caller-defined DiffableStr: {}", p)),
+                }
+            }
             if c.old.0.len() + c.new.0.len() <= 400 {
                 match guard(|| wrapper_inputs(c)) {
                     Ok(Ok(())) => {}
@@ -251,6 +305,26 @@ fn check(case: &Case, obs: &mut Obs) -> Verdict {
                 Ok(Ok(())) => {}
                 Ok(Err(m)) => return Verdict::Fail(format!("IdentifyDistinct: {}", m)),
                 Err(p) => return Verdict::Fail(format!("IdentifyDistinct over coarse-hash items: {}", p)),
+            }
+            if c.is_full() && !c.old.is_empty() {
+                let view = crate::oracle::Reversed(c.old.clone());
+                let n = view.0.len();
+                match guard(|| {
+                    let h = IdentifyDistinct::<u32>::new(&view.0, 0..n, &view, 0..n);
+                    let (ol, nl) = (h.old_lookup(), h.new_lookup());
+                    for i in 0..n {
+                        for j in 0..n {
+                            if (view.0[i] == view.0[n - 1 - j]) != (ol[i] == nl[j]) {
+                                return Err(format!("IdentifyDistinct over a Vec {:?} and a transparent back-to-front view of it (same address): old[{}] and new[{}] get ids {} and {}", view.0, i, j, ol[i], nl[j]));
+                            }
+                        }
+                    }
+                    Ok(())
+                }) {
+                    Ok(Ok(())) => {}
+                    Ok(Err(m)) => return Verdict::Fail(m),
+                    Err(p) => return Verdict::Fail(format!("IdentifyDistinct over a same-address view: {}", p)),
+                }
             }
             let r = guard(|| match ty {
                 0 => ident_check::<u16>(c),
@@ -359,7 +433,7 @@ impl Prop for C14 {
     type Case = Case;
     const ID: &'static str = "C14";
     fn rule() -> String {
-        "cases = Text(old, new, tokenizer, algorithm, str | [u8], newline_terminated override in {unset,true,false}) with item counts per side drawn from {0,1,2,50,51,99,100,101,102,150,200/300} (all four <=100 / >100 quadrants, and exactly 100/101 tokens), new related to old by in-place edits or independent, plus the shared text mixture | Ident(sequence pair, non-zero range offsets, integer type in {u16,u32,u64,usize, u8 only when <= 255 distinct items}). Oracle: TextDiff::ops == capture_diff_slices(alg, tokenizer(old), tokenizer(new)); the stored token slices are the tokenizer output; algorithm() == configured; newline_terminated() == override else (tokenizer == lines); TextDiffConfig::diff_slices likewise; String / Cow<str> / Vec<u8> / Cow<[u8]> inputs give the ops of the borrowed text (texts up to 400 bytes). IdentifyDistinct: ids equal <=> items equal within and across sides, old_range()/new_range() == the caller's, lookups indexed with the caller's indices. Non-trivial = a side has more than 100 tokens and the texts differ (Text) / non-zero offset with >= 2 distinct items (Ident); distinct = distinct serialized case.".into()
+        "cases = Text(old, new, tokenizer, algorithm, str | [u8], newline_terminated override in {unset,true,false}) with item counts per side drawn from {0,1,2,50,51,99,100,101,102,150,200/300} (all four <=100 / >100 quadrants, and exactly 100/101 tokens), new related to old by in-place edits or independent, plus the shared text mixture | Ident(sequence pair, non-zero range offsets, integer type in {u16,u32,u64,usize, u8 only when <= 255 distinct items}). Oracle: TextDiff::ops == capture_diff_slices(alg, tokenizer(old), tokenizer(new)); the stored token slices are the tokenizer output; algorithm() == configured; newline_terminated() == override else (tokenizer == lines); TextDiffConfig::diff_slices likewise; String / Cow<str> / Vec<u8> / Cow<[u8]> inputs give the ops of the borrowed text (texts up to 400 bytes). IdentifyDistinct: ids equal <=> items equal within and across sides, old_range()/new_range() == the caller's, lookups indexed with the caller's indices. ASCII texts are also diffed as a caller-defined case-insensitive DiffableStr (new side re-spelled in upper case): ops == sequence diff of its tokens, and == the ops of the identically spelled texts; IdentifyDistinct is also run over a Vec and a transparent back-to-front view of it at the same address. Non-trivial = a side has more than 100 tokens and the texts differ (Text) / non-zero offset with >= 2 distinct items (Ident); distinct = distinct serialized case.".into()
     }
     fn assumptions() -> Vec<String> {
         vec!["LCS inputs capped at 160 items".into()]
